@@ -1,8 +1,11 @@
 use crate::engine::Engine;
-use crate::goal::{AnyGoal, Goal};
+use crate::goal::{AnyGoal, DFSGoal, Goal};
 use crate::lterm::{LTerm, LTermInner};
+use crate::operator::fngoal::FnGoal;
+use crate::solver::Solve;
 use crate::stream::Stream;
 use crate::user::User;
+use crate::GoalCast;
 
 #[cfg(feature = "clpfd")]
 use crate::operator::onceo;
@@ -109,4 +112,20 @@ pub fn reify<U: User, E: Engine<U>>(x: LTerm<U, E>) -> Goal<U, E> {
             Stream::unit(Box::new(state.with_smap(r).with_cstore(cstore)))
         }
     ])
+}
+
+/// Conjunction of `goal` with the reification of `x`.
+///
+/// Reifying one answer is a finite search, so the answers of `goal` are reified one after the
+/// other in the order in which `goal` produces them. An ordinary interleaving conjunction would
+/// let an answer that is cheap to reify overtake an earlier answer that is expensive to reify,
+/// and reorder the answers of a `dfs`-goal.
+pub fn reified<U: User, E: Engine<U>>(goal: Goal<U, E>, x: LTerm<U, E>) -> Goal<U, E> {
+    let reify_bfs: Goal<U, E> = reify(x);
+    let reify_dfs: DFSGoal<U, E> = GoalCast::cast_into(FnGoal::new::<DFSGoal<U, E>>(Box::new(
+        move |solver, state| reify_bfs.solve(solver, state),
+    )));
+    GoalCast::cast_into(FnGoal::new::<Goal<U, E>>(Box::new(move |solver, state| {
+        Stream::bind_dfs(goal.solve(solver, state), reify_dfs.clone())
+    })))
 }
